@@ -8,6 +8,8 @@ From Dashu Require Import Float.RoundSpec Float.Contract Float.Model Float.TextI
 From Dashu Require Import Int.ReprOrdNoNegZero Int.ReprOrdModel Int.ReprOrdProofs Int.ReprOrdArith.
 From Dashu Require Import Float.FloatOrdModel Float.FloatOrdProofs Float.FloatOrdTotal Float.FloatOrdProducers.
 From Dashu Require Import Ratio.RatioOrdModel Ratio.RatioOrdProofs.
+From Dashu Require Import Int.DivSpec Int.ReprOrdArith2Model Int.ReprOrdArith2 Float.FloatOrdProducers2 Float.FloatOrdDispatch Ratio.RatioOrdGen.
+From DashuGen Require Import CmpGen DigitsEstGen.
 Open Scope Z_scope.
 
 (* ------------------------------------------------------------------ UBig / IBig (integer/src/{repr,cmp}.rs) *)
@@ -484,3 +486,245 @@ Print Assumptions C05_ratio_second_filter_dead.
 Theorem C05_rbig_invariant_check : forall a, reducedb a = true <-> reduced a.
 Proof. exact reducedb_ok. Qed.
 Print Assumptions C05_rbig_invariant_check.
+
+(* ================================================================== added by deepening round 3 *)
+
+(* ------------------------------------------------------------------ integers: the rest of the operator surface
+   (C02's transcribed division kernels and sign tables, C09's signed bit operators and shifts) composed with the
+   full representation; histories over everything *)
+
+Theorem C05_store_fit : forall w, 8 <= w -> forall c v, canonical w (store_fit w c v) /\ rvalue w (store_fit w c v) = v.
+Proof. exact store_fit_ok. Qed.
+Print Assumptions C05_store_fit.
+
+(** inline exactly when the magnitude fits a double word *)
+Theorem C05_canonical_inline_iff : forall w, 8 <= w -> forall r, canonical w r ->
+  match r with
+  | Inline _ _ _ => Z.abs (rvalue w r) < Words.B w * Words.B w
+  | Heap _ _ => Words.B w * Words.B w <= Z.abs (rvalue w r)
+  end.
+Proof. exact canonical_inline_iff. Qed.
+Print Assumptions C05_canonical_inline_iff.
+
+Theorem C05_ibig_bit_signed : forall w, 8 <= w -> forall f o c a b, canonical w a -> canonical w b ->
+  canonical w (ibig_bit w f o c a b) /\ rvalue w (ibig_bit w f o c a b) = sbit_spec f (rvalue w a) (rvalue w b).
+Proof. exact ibig_bit_ok. Qed.
+Print Assumptions C05_ibig_bit_signed.
+
+Theorem C05_ibig_not : forall w, 8 <= w -> forall byref c a, canonical w a ->
+  canonical w (ibig_not w byref c a) /\ rvalue w (ibig_not w byref c a) = Z.lnot (rvalue w a).
+Proof. exact ibig_not_ok. Qed.
+Print Assumptions C05_ibig_not.
+
+Theorem C05_ibig_shift_signed : forall w, 8 <= w -> forall f c a n, canonical w a -> 0 <= n ->
+  canonical w (ibig_shift w f c a n) /\ rvalue w (ibig_shift w f c a n) = sshift_spec f (rvalue w a) n.
+Proof. exact ibig_shift_ok. Qed.
+Print Assumptions C05_ibig_shift_signed.
+
+Theorem C05_ibig_shr_floor : forall w, 8 <= w -> forall c a n, canonical w a -> 0 <= n ->
+  rvalue w (ibig_shift w HShr c a n) = rvalue w a / 2 ^ n.
+Proof. exact ibig_shr_floor. Qed.
+Print Assumptions C05_ibig_shr_floor.
+
+(** DivRem / Div / Rem of magnitudes through the transcribed kernels (two-word primitives, by word, by double word,
+    Knuth D, Burnikel-Ziegler over C01's multiplier): canonical quotient and remainder of the right values *)
+Theorem C05_ubig_div_rem : forall w, 8 <= w -> forall c a b, rvalue w b <> 0 ->
+  exists q r, ubig_div_rem w c a b = Ok (q, r) /\ ubig_div w c a b = Ok q /\ ubig_rem w c a b = Ok r /\
+    canonical w q /\ canonical w r /\
+    rvalue w q = Z.abs (rvalue w a) / Z.abs (rvalue w b) /\ rvalue w r = Z.abs (rvalue w a) mod Z.abs (rvalue w b).
+Proof. exact ubig_div_rem_ok. Qed.
+Print Assumptions C05_ubig_div_rem.
+
+Theorem C05_ubig_div_rem_zero : forall w c a b, rvalue w b = 0 ->
+  ubig_div_rem w c a b = Panic DivideBy0 /\ ubig_rem w c a b = Panic DivideBy0.
+Proof. exact ubig_div_rem_zero. Qed.
+Print Assumptions C05_ubig_div_rem_zero.
+
+(** the seven signed forms: what the specification of C02 demands, stored canonically; panics exactly where it says *)
+Theorem C05_ibig_divform : forall w, 8 <= w -> forall f c a b,
+  match form_spec f (rvalue w a) (rvalue w b) with
+  | Ok vs => exists rs, ibig_divform w f c a b = Ok rs /\ Forall (canonical w) rs /\ map (rvalue w) rs = vs
+  | Panic p => ibig_divform w f c a b = Panic p
+  | Err e => ibig_divform w f c a b = Err e
+  | OutOfFuel => ibig_divform w f c a b = OutOfFuel
+  end.
+Proof. exact ibig_divform_ok. Qed.
+Print Assumptions C05_ibig_divform.
+
+Theorem C05_full_history_canonical : forall w, 8 <= w -> forall os p, Forall (canonical w) p -> Forall (aop2_ok w) os ->
+  Forall (canonical w) (arun2 w p os).
+Proof. exact arun2_canonical. Qed.
+Print Assumptions C05_full_history_canonical.
+
+Theorem C05_full_history_values_compare : forall w, 8 <= w -> forall os a b, Forall (aop2_ok w) os ->
+  In a (arun2 w [] os) -> In b (arun2 w [] os) ->
+  (repr_eq a b = true <-> rvalue w a = rvalue w b) /\
+  ibig_cmp w a b = (rvalue w a ?= rvalue w b) /\
+  (ibig_cmp w a b = Eq <-> repr_eq a b = true) /\
+  (rvalue w a = rvalue w b -> hash_input a = hash_input b) /\
+  (abs_eq a b = true <-> Z.abs (rvalue w a) = Z.abs (rvalue w b)) /\
+  abs_cmp w a b = (Z.abs (rvalue w a) ?= Z.abs (rvalue w b)).
+Proof. exact full_history_values_compare. Qed.
+Print Assumptions C05_full_history_values_compare.
+
+(* ------------------------------------------------------------------ floats: add / sub / div / inv / sqrt and the operator
+   bodies; the regenerated comparison code; FBig with its context *)
+
+Theorem C05_float_new_of_normalized : forall B a, 2 <= B -> nz B (new_of B a).
+Proof. exact new_of_nz. Qed.
+Print Assumptions C05_float_new_of_normalized.
+
+Theorem C05_float_new_idempotent : forall B se, 2 <= B -> nz B se -> new_pair B se = se.
+Proof. exact new_pair_id. Qed.
+Print Assumptions C05_float_new_idempotent.
+
+Theorem C05_float_producers2_normalized : forall B x, 2 <= B -> produced2 B x -> fwf x /\ normalized_ext B x.
+Proof. exact produced2_normalized. Qed.
+Print Assumptions C05_float_producers2_normalized.
+
+Theorem C05_float_eq_sound_on_producers2 : forall B digits_ub x y, 2 <= B ->
+  (forall s, s <> 0 -> Z.abs s < B ^ (digits_ub s + 1)) ->
+  produced2 B x -> produced2 B y ->
+  fbig_eq x y = feq_spec B x y /\
+  repr_cmp_same_base B digits_ub false x y = fcmp_spec B x y /\
+  repr_cmp_same_base B digits_ub true x y = fabs_cmp_spec B x y /\
+  (repr_cmp_same_base B digits_ub false x y = Eq <-> fbig_eq x y = true).
+Proof. exact fbig_eq_sound_on_producers2. Qed.
+Print Assumptions C05_float_eq_sound_on_producers2.
+
+(** a finite value has one normalised representation: two routes to one value give the same Repr *)
+Theorem C05_float_normalized_value_unique : forall B x y, 2 <= B -> fwf x -> fwf y ->
+  normalized_ext B x -> normalized_ext B y -> feq_spec B x y = true -> f_is_inf x = false -> f_is_inf y = false -> x = y.
+Proof. exact normalized_value_unique. Qed.
+Print Assumptions C05_float_normalized_value_unique.
+
+(** the bodies regenerated from float/src/cmp.rs on every run are the hand-written as-is models *)
+Theorem C05_fbig_eq_gen_is_model : forall a b, fbig_eq_gen a b = fbig_eq a b.
+Proof. exact fbig_eq_gen_is_model. Qed.
+Print Assumptions C05_fbig_eq_gen_is_model.
+
+Theorem C05_repr_cmp_gen_is_model : forall B digits_ub abs lhs rhs,
+  repr_cmp_same_base_gen B digits_ub abs lhs rhs = repr_cmp_same_base B digits_ub abs lhs rhs.
+Proof. exact repr_cmp_gen_is_model. Qed.
+Print Assumptions C05_repr_cmp_gen_is_model.
+
+(** PartialOrd between any two rounding modes, Ord, AbsOrd of FBig and Ord of Repr, for any precisions *)
+Theorem C05_fbig_ord_any_context : forall B digits_ub, 2 <= B ->
+  (forall s, s <> 0 -> Z.abs s < B ^ (digits_ub s + 1)) ->
+  forall x y : fbig_c, fwf (fc_repr x) -> fwf (fc_repr y) ->
+  fc_partial_cmp B digits_ub x y = Some (fcmp_spec B (fc_repr x) (fc_repr y)) /\
+  fc_cmp B digits_ub x y = fcmp_spec B (fc_repr x) (fc_repr y) /\
+  fc_abs_cmp B digits_ub x y = fabs_cmp_spec B (fc_repr x) (fc_repr y) /\
+  frepr_cmp B digits_ub (fc_repr x) (fc_repr y) = fcmp_spec B (fc_repr x) (fc_repr y).
+Proof. exact fbig_ord_any_context. Qed.
+Print Assumptions C05_fbig_ord_any_context.
+
+Theorem C05_fbig_eq_any_context : forall B digits_ub, 2 <= B ->
+  (forall s, s <> 0 -> Z.abs s < B ^ (digits_ub s + 1)) ->
+  forall x y : fbig_c, fwf (fc_repr x) -> fwf (fc_repr y) ->
+  normalized_ext B (fc_repr x) -> normalized_ext B (fc_repr y) ->
+  fc_eq x y = feq_spec B (fc_repr x) (fc_repr y) /\
+  (fc_cmp B digits_ub x y = Eq <-> fc_eq x y = true) /\ (fc_partial_cmp B digits_ub x y = Some Eq <-> fc_eq x y = true).
+Proof. exact fbig_eq_any_context. Qed.
+Print Assumptions C05_fbig_eq_any_context.
+
+Theorem C05_fbig_cmp_ignores_context : forall B digits_ub r1 r2 p1 m1 p2 m2 p1' m1' p2' m2',
+  fc_eq (FC r1 p1 m1) (FC r2 p2 m2) = fc_eq (FC r1 p1' m1') (FC r2 p2' m2') /\
+  fc_partial_cmp B digits_ub (FC r1 p1 m1) (FC r2 p2 m2) = fc_partial_cmp B digits_ub (FC r1 p1' m1') (FC r2 p2' m2') /\
+  fc_cmp B digits_ub (FC r1 p1 m1) (FC r2 p2 m2) = fc_cmp B digits_ub (FC r1 p1' m1') (FC r2 p2' m2') /\
+  fc_abs_cmp B digits_ub (FC r1 p1 m1) (FC r2 p2 m2) = fc_abs_cmp B digits_ub (FC r1 p1' m1') (FC r2 p2' m2').
+Proof. exact fbig_cmp_ignores_context. Qed.
+Print Assumptions C05_fbig_cmp_ignores_context.
+
+(** Hash exists for UBig, IBig, RBig only: nothing hashes a non-canonical representation *)
+Theorem C05_no_structural_hash : relaxed_has_hash_gen = false /\ fbig_has_hash_gen = false.
+Proof. exact no_structural_hash. Qed.
+Print Assumptions C05_no_structural_hash.
+
+(* ------------------------------------------------------------------ rationals: the regenerated bodies, RBig and Relaxed as dispatched *)
+
+Theorem C05_q_repr_eq_gen_is_model : forall abs a b, q_repr_eq_gen abs a b = q_repr_eq abs a b.
+Proof. exact q_repr_eq_gen_is_model. Qed.
+Print Assumptions C05_q_repr_eq_gen_is_model.
+
+Theorem C05_q_repr_cmp_gen_is_model : forall abs l r, q_repr_cmp_gen abs l r = q_repr_cmp abs l r.
+Proof. exact q_repr_cmp_gen_is_model. Qed.
+Print Assumptions C05_q_repr_cmp_gen_is_model.
+
+Theorem C05_rbig_gen_is_model : forall a b,
+  rbig_eq_gen a b = rbig_eq a b /\ rbig_abs_eq_gen a b = rbig_abs_eq a b /\
+  rbig_hash_fields_gen a = [fst (rbig_hash_input a); snd (rbig_hash_input a)].
+Proof. exact rbig_gen_is_model. Qed.
+Print Assumptions C05_rbig_gen_is_model.
+
+Theorem C05_derive_lists : relaxed_derives_eq_gen = true /\ relaxed_derives_ord_gen = true /\ rbig_derives_ord_gen = true /\
+  rbig_derives_eq_gen = false /\ relaxed_has_hash_gen = false.
+Proof. exact derive_lists. Qed.
+Print Assumptions C05_derive_lists.
+
+(** Relaxed: == / cmp by value on any representations (common factors allowed): Qeq_bool / Qcompare *)
+Theorem C05_relaxed_by_value : forall a b, 0 < qden a -> 0 < qden b ->
+  relaxed_eq a b = QArith_base.Qeq_bool (Qof a) (Qof b) /\
+  relaxed_cmp a b = QArith_base.Qcompare (Qof a) (Qof b) /\
+  relaxed_partial_cmp a b = Some (QArith_base.Qcompare (Qof a) (Qof b)) /\
+  (relaxed_cmp a b = Eq <-> relaxed_eq a b = true) /\
+  relaxed_abs_eq a b = qeq_spec (qabs a) (qabs b) /\
+  rat_abs_cmp a b = qcmp_spec (qabs a) (qabs b).
+Proof. exact relaxed_by_value. Qed.
+Print Assumptions C05_relaxed_by_value.
+
+Theorem C05_relaxed_scale_invariant : forall a b t, 0 < qden a -> 0 < qden b -> 0 < t ->
+  let a' := QR (qnum a * t) (qden a * t) in
+  relaxed_eq a' b = relaxed_eq a b /\ relaxed_cmp a' b = relaxed_cmp a b /\ relaxed_eq a' a = true.
+Proof. exact relaxed_scale_invariant. Qed.
+Print Assumptions C05_relaxed_scale_invariant.
+
+Theorem C05_rbig_consistent_with_relaxed : forall a b, reduced a -> reduced b ->
+  rbig_eq_gen a b = relaxed_eq a b /\
+  rbig_eq_gen a b = QArith_base.Qeq_bool (Qof a) (Qof b) /\
+  rbig_cmp a b = QArith_base.Qcompare (Qof a) (Qof b) /\
+  (rbig_cmp a b = Eq <-> rbig_eq_gen a b = true) /\
+  (rbig_eq_gen a b = true -> rbig_hash_fields_gen a = rbig_hash_fields_gen b) /\
+  rbig_abs_eq_gen a b = relaxed_abs_eq a b.
+Proof. exact rbig_consistent_with_relaxed. Qed.
+Print Assumptions C05_rbig_consistent_with_relaxed.
+
+(* ------------------------------------------------------------------ Repr::digits_ub: the hypothesis of the float theorems is a
+   theorem for the f32 code (arms regenerated from float/src/repr.rs), for every sound log2 estimator *)
+From Coq Require Import Reals.
+From Flocq Require Import Core IEEE754.BinarySingleNaN.
+From Dashu Require Import Cross.XLog2Model Cross.XLog2Flocq Float.DigitsUbModel Float.DigitsUbProof.
+Open Scope Z_scope.
+
+Theorem C05_digits_ub32_is_gen : forall lg w B s, s <> 0 ->
+  digits_ub32 lg 64 w B s =
+  digits_ub_est B (fst (ibig_log2_bounds lg w s)) (snd (ibig_log2_bounds lg w s)) (fst (u_log2_bounds lg B)) (snd (u_log2_bounds lg B)).
+Proof. exact digits_ub32_is_gen. Qed.
+Print Assumptions C05_digits_ub32_is_gen.
+
+Theorem C05_digits_ub_contract : forall (B s : Z) (lb ub blb bub : f32),
+  2 <= B -> s <> 0 -> Z.abs s < B ^ (2 ^ 24) ->
+  is_finite ub = true -> (log2R (IZR (Z.abs s)) <= B2R ub)%R -> (B2R ub <= bpow radix2 100)%R ->
+  (B <> 2 -> B <> 10 -> is_finite blb = true /\ (/ 2 <= B2R blb <= log2R (IZR B))%R) ->
+  Z.abs s < B ^ digits_ub_est B lb ub blb bub.
+Proof. exact digits_ub_contract. Qed.
+Print Assumptions C05_digits_ub_contract.
+
+Theorem C05_digits_ub_hypothesis : forall (B s : Z) (lb ub blb bub : f32),
+  2 <= B -> s <> 0 -> Z.abs s < B ^ (2 ^ 24) ->
+  is_finite ub = true -> (log2R (IZR (Z.abs s)) <= B2R ub)%R -> (B2R ub <= bpow radix2 100)%R ->
+  (B <> 2 -> B <> 10 -> is_finite blb = true /\ (/ 2 <= B2R blb <= log2R (IZR B))%R) ->
+  Z.abs s < B ^ (digits_ub_est B lb ub blb bub + 1).
+Proof. exact digits_ub_hypothesis. Qed.
+Print Assumptions C05_digits_ub_hypothesis.
+
+(** the regenerated comparison body run with the regenerated f32 digit estimate is the order of the values *)
+Theorem C05_float_cmp_with_f32_estimate : forall B, 2 <= B ->
+  forall (est : Z -> f32 * f32) (best : f32 * f32),
+  (forall s, s <> 0 -> is_finite (snd (est s)) = true /\ (log2R (IZR (Z.abs s)) <= B2R (snd (est s)) <= bpow radix2 100)%R) ->
+  (B <> 2 -> B <> 10 -> is_finite (fst best) = true /\ (/ 2 <= B2R (fst best) <= log2R (IZR B))%R) ->
+  forall l r, fwf l -> fwf r ->
+  repr_cmp_same_base_gen B (du32 B est best) false l r = fcmp_spec B l r /\
+  repr_cmp_same_base_gen B (du32 B est best) true l r = fabs_cmp_spec B l r.
+Proof. exact float_cmp_with_f32_estimate. Qed.
+Print Assumptions C05_float_cmp_with_f32_estimate.
